@@ -17,6 +17,7 @@ import (
 	"crypto/sha256"
 	"encoding/binary"
 	"encoding/hex"
+	"encoding/json"
 	"fmt"
 	"hash/maphash"
 	"io/fs"
@@ -54,7 +55,6 @@ const (
 	rightRead, rightWrite             = uint64(1) << 1, uint64(1) << 6
 	fstAtim, fstAtimNow               = 1, 2
 	fstMtim, fstMtimNow               = 4, 8
-	fdRO, fdRW                        = 3, 4 // preopens: read-only mount under test, writable mount
 )
 
 var mountKinds = []string{"rodir", "dirfs", "mapfs"}
@@ -391,9 +391,62 @@ type step struct {
 	Data    string `json:"data,omitempty"`
 }
 
+// mountOp is one With...Mount derivation of an FSConfig.
+//
+// Kind: "dir-same" WithDirMount(the read-only tree's host dir) (for the MapFS mount: another
+// directory), "dir-other" WithDirMount(another directory), "rodir-other"
+// WithReadOnlyDirMount(another directory), "map-other" WithFSMount(another MapFS), "nil"
+// WithFSMount(nil).
+type mountOp struct {
+	Kind  string `json:"kind"`
+	Guest string `json:"guest"`
+	// After-ops only: Chain derives from the previous derived config instead of from the
+	// configuration under test; Use instantiates a sibling guest with the derived config
+	// (it makes no calls); ViaModule also passes it through ModuleConfig.WithFSConfig.
+	Chain     bool `json:"chain,omitempty"`
+	Use       bool `json:"use,omitempty"`
+	ViaModule bool `json:"via_module,omitempty"`
+}
+
+// recipe says how the FSConfig of the instance under test is built and what else is derived
+// from it before instantiation. The zero value is NewFSConfig().With<ro mount>("/ro").
+// WithDirMount(rw, "/rw").
+type recipe struct {
+	Spelling string    `json:"spelling,omitempty"` // guest path spelling of the read-only mount ("" = "/ro")
+	RWFirst  bool      `json:"rw_first,omitempty"` // the writable mount "/rw" is added before, not after
+	Before   []mountOp `json:"before,omitempty"`   // mounts made before the read-only mount (same guest path: overridden by it)
+	After    []mountOp `json:"after,omitempty"`    // configs derived from the finished config; never used by the instance under test
+}
+
+func (r recipe) key() string {
+	b, _ := json.Marshal(r)
+	return string(b)
+}
+
+func (r recipe) isDefault() bool { return r.key() == recipe{}.key() }
+
+func cleanGuest(p string) string {
+	for strings.HasSuffix(p, "/") {
+		p = p[:len(p)-1]
+	}
+	for {
+		switch {
+		case strings.HasPrefix(p, "/"):
+			p = p[1:]
+		case strings.HasPrefix(p, "./"):
+			p = p[2:]
+		case p == ".":
+			p = ""
+		default:
+			return p
+		}
+	}
+}
+
 type caseT struct {
 	Mount  string `json:"mount"`
 	Engine string `json:"engine"`
+	Config recipe `json:"config"`
 	Steps  []step `json:"steps"`
 	// filled in when a violation is written out; ignored by replay
 	Observed []string `json:"observed,omitempty"`
@@ -440,17 +493,53 @@ type slot struct {
 	open  bool
 }
 
+// host is the host side of one mount kind: the directories (or the map) and their last
+// snapshot. It is shared by all worlds (guests with differently built configurations) of
+// that mount kind in this process; cases run one after the other.
+type host struct {
+	roDir, rwDir string
+	otherDir     string
+	otherMap     fstest.MapFS
+	mapfs        fstest.MapFS
+	snap         string
+	rwSnap       string
+	atimes       map[string]int64
+	guestAtimes  map[int64]bool
+}
+
+var hosts = map[string]*host{}
+
+func hostFor(mount string) (*host, error) {
+	if h := hosts[mount]; h != nil {
+		return h, nil
+	}
+	base := filepath.Join(evid.WorkDir(), "host-"+mount)
+	h := &host{roDir: filepath.Join(base, "ro"), rwDir: filepath.Join(base, "rw"), otherDir: filepath.Join(base, "other"),
+		otherMap: fstest.MapFS{"o.txt": &fstest.MapFile{Data: []byte("other map\n")}}, guestAtimes: map[int64]bool{}}
+	if err := buildTree(h.rwDir, rwTree); err != nil {
+		return nil, err
+	}
+	if err := buildTree(h.otherDir, rwTree); err != nil {
+		return nil, err
+	}
+	if mount == "mapfs" {
+		h.mapfs = buildMapFS()
+		h.roDir = ""
+	} else if err := buildTree(h.roDir, tree); err != nil {
+		return nil, err
+	}
+	hosts[mount] = h
+	return h, nil
+}
+
 type world struct {
+	*host
 	mount, engine string
-	roDir, rwDir  string
-	mapfs         fstest.MapFS
+	cfg           recipe
+	fdRO, fdRW    uint32 // preopens: read-only mount under test, writable mount
 	rt            wazero.Runtime
 	p             *wasiproxy.Proxy
 	slots         []slot
-	snap          string
-	rwSnap        string
-	atimes        map[string]int64
-	guestAtimes   map[int64]bool
 	nontrivial    int
 	mutFirst      bool // the first step of the running case satisfied the non-triviality rule
 	steps         int
@@ -458,26 +547,50 @@ type world struct {
 	internal      string
 }
 
-var worldSeq int
-
-func newWorld(mount, engine string) (*world, error) {
-	worldSeq++
-	base := filepath.Join(evid.WorkDir(), fmt.Sprintf("w%d-%s", worldSeq, mount))
-	w := &world{mount: mount, engine: engine, roDir: filepath.Join(base, "ro"), rwDir: filepath.Join(base, "rw"), labels: map[string]int{}, guestAtimes: map[int64]bool{}}
-	if err := buildTree(w.rwDir, rwTree); err != nil {
+func newWorld(mount, engine string, cfg recipe) (*world, error) {
+	h, err := hostFor(mount)
+	if err != nil {
 		return nil, err
 	}
-	if mount == "mapfs" {
-		w.mapfs = buildMapFS()
-		w.roDir = ""
-	} else if err := buildTree(w.roDir, tree); err != nil {
-		return nil, err
-	}
+	w := &world{host: h, mount: mount, engine: engine, cfg: cfg, labels: map[string]int{}}
 	if err := w.boot(); err != nil {
 		return nil, err
 	}
 	w.resnap()
 	return w, nil
+}
+
+// mountRO adds the read-only mount under test.
+func (w *world) mountRO(fc wazero.FSConfig, guest string) (wazero.FSConfig, error) {
+	switch w.mount {
+	case "rodir":
+		return fc.WithReadOnlyDirMount(w.roDir, guest), nil
+	case "dirfs":
+		return fc.WithFSMount(os.DirFS(w.roDir), guest), nil
+	case "mapfs":
+		return fc.WithFSMount(w.mapfs, guest), nil
+	}
+	return nil, fmt.Errorf("unknown mount kind %q", w.mount)
+}
+
+func (w *world) applyMount(fc wazero.FSConfig, op mountOp) wazero.FSConfig {
+	switch op.Kind {
+	case "dir-same":
+		d := w.roDir
+		if d == "" {
+			d = w.otherDir
+		}
+		return fc.WithDirMount(d, op.Guest)
+	case "dir-other":
+		return fc.WithDirMount(w.otherDir, op.Guest)
+	case "rodir-other":
+		return fc.WithReadOnlyDirMount(w.otherDir, op.Guest)
+	case "map-other":
+		return fc.WithFSMount(w.otherMap, op.Guest)
+	case "nil":
+		return fc.WithFSMount(nil, op.Guest)
+	}
+	return fc
 }
 
 func (w *world) boot() error {
@@ -487,23 +600,79 @@ func (w *world) boot() error {
 	}
 	w.slots = nil
 	w.rt = wazero.NewRuntimeWithConfig(ctx, wz.Config(w.engine))
-	fc := wazero.NewFSConfig()
-	switch w.mount {
-	case "rodir":
-		fc = fc.WithReadOnlyDirMount(w.roDir, "/ro")
-	case "dirfs":
-		fc = fc.WithFSMount(os.DirFS(w.roDir), "/ro")
-	case "mapfs":
-		fc = fc.WithFSMount(w.mapfs, "/ro")
-	default:
-		return fmt.Errorf("unknown mount kind %q", w.mount)
+	spelling := w.cfg.Spelling
+	if cleanGuest(spelling) != "ro" {
+		spelling = "/ro"
 	}
-	fc = fc.WithDirMount(w.rwDir, "/rw")
-	p, err := wasiproxy.New(ctx, w.rt, wazero.NewModuleConfig().WithFSConfig(fc), 1, 1)
+	fc := wazero.NewFSConfig()
+	if w.cfg.RWFirst {
+		fc = fc.WithDirMount(w.rwDir, "/rw")
+	}
+	for _, op := range w.cfg.Before {
+		// a mount that would legitimately expose the tree writable under another guest path, or
+		// replace the writable mount, is not part of the domain
+		if g := cleanGuest(op.Guest); g == "rw" || g == "" || op.Kind == "nil" || (op.Kind == "dir-same" && g != "ro") {
+			continue
+		}
+		fc = w.applyMount(fc, op)
+	}
+	fc, err := w.mountRO(fc, spelling)
+	if err != nil {
+		return err
+	}
+	if !w.cfg.RWFirst {
+		fc = fc.WithDirMount(w.rwDir, "/rw")
+	}
+	// the configuration under test is finished; everything below only derives from it
+	mc := wazero.NewModuleConfig().WithFSConfig(fc)
+	prev := fc
+	for _, op := range w.cfg.After {
+		from := fc
+		if op.Chain {
+			from = prev
+		}
+		d := w.applyMount(from, op)
+		prev = d
+		dm := mc
+		if op.ViaModule {
+			dm = mc.WithFSConfig(d)
+		}
+		if op.Use && op.Kind != "nil" {
+			if !op.ViaModule {
+				dm = wazero.NewModuleConfig().WithFSConfig(d)
+			}
+			if _, err := wasiproxy.New(ctx, w.rt, dm, 1, 1); err != nil {
+				return fmt.Errorf("sibling: %w", err)
+			}
+		}
+	}
+	p, err := wasiproxy.New(ctx, w.rt, mc, 1, 1)
 	if err != nil {
 		return err
 	}
 	w.p = p
+	// find the preopens by name
+	w.fdRO, w.fdRW = 0, 0
+	for fd := uint32(3); fd < 16; fd++ {
+		e, out := p.Call(ctx, "fd_prestat_get", uint64(fd), mResult)
+		if out.Kind != wz.KOK || e != 0 {
+			continue
+		}
+		n, _ := p.Mem.ReadUint32Le(mResult + 4)
+		if e, out = p.Call(ctx, "fd_prestat_dir_name", uint64(fd), mBuf, uint64(n)); out.Kind != wz.KOK || e != 0 {
+			continue
+		}
+		nm, _ := p.Mem.Read(mBuf, n)
+		switch cleanGuest(string(nm)) {
+		case "ro":
+			w.fdRO = fd
+		case "rw":
+			w.fdRW = fd
+		}
+	}
+	if w.fdRO == 0 || w.fdRW == 0 {
+		return fmt.Errorf("preopens not found (ro=%d rw=%d) for config %s", w.fdRO, w.fdRW, w.cfg.key())
+	}
 	return nil
 }
 
@@ -511,11 +680,6 @@ func (w *world) close() {
 	if w.rt != nil {
 		w.rt.Close(context.Background())
 		w.rt = nil
-	}
-	if w.roDir != "" {
-		os.RemoveAll(filepath.Dir(w.roDir))
-	} else {
-		os.RemoveAll(filepath.Dir(w.rwDir))
 	}
 }
 
@@ -589,12 +753,12 @@ const (
 func (w *world) resolveDir(ref int) (fd uint32, base string, inRO bool) {
 	switch {
 	case ref == -2:
-		return fdRW, "", false
+		return w.fdRW, "", false
 	case ref >= 0 && len(w.slots) > 0:
 		s := w.slots[ref%len(w.slots)]
 		return s.fd, s.rel, s.inRO
 	}
-	return fdRO, ".", true
+	return w.fdRO, ".", true
 }
 
 func (w *world) resolveFd(ref int) (fd uint32, sl *slot) {
@@ -602,7 +766,7 @@ func (w *world) resolveFd(ref int) (fd uint32, sl *slot) {
 		s := &w.slots[ref%len(w.slots)]
 		return s.fd, s
 	}
-	return fdRO, nil
+	return w.fdRO, nil
 }
 
 func (w *world) putPath(off uint32, p string) (uint64, uint64) {
@@ -793,7 +957,7 @@ func (w *world) readKnown() string {
 	ctx := context.Background()
 	p := w.p
 	po, pl := w.putPath(mPath1, knownFile)
-	e, out := p.Call(ctx, "path_open", fdRO, 1, po, pl, 0, rightRead, rightRead, 0, mResult)
+	e, out := p.Call(ctx, "path_open", uint64(w.fdRO), 1, po, pl, 0, rightRead, rightRead, 0, mResult)
 	if out.Kind != wz.KOK || e != 0 {
 		return fmt.Sprintf("reading through the mount stopped working: path_open(%q, read) = errno %d %v", knownFile, e, out)
 	}
@@ -903,6 +1067,17 @@ func battery() []step {
 	}
 }
 
+// crossRecipes are the ways the configuration is built in the cross product; block k of 512
+// consecutive cases (all oflags x fdflags of one rights/lookup/path/mount combination) uses
+// recipe k mod 4.
+var crossRecipes = []recipe{
+	{},
+	{After: []mountOp{{Kind: "dir-same", Guest: "/ro"}}},
+	{Spelling: "ro", Before: []mountOp{{Kind: "dir-same", Guest: "/ro"}}},
+	{RWFirst: true, Before: []mountOp{{Kind: "map-other", Guest: "/x"}},
+		After: []mountOp{{Kind: "dir-other", Guest: "ro/", Use: true}, {Kind: "dir-same", Guest: "/ro", Chain: true, ViaModule: true}}},
+}
+
 func crossCase(i int) (caseT, bool) {
 	n := i
 	of := uint16(n % 16)
@@ -919,7 +1094,7 @@ func crossCase(i int) (caseT, bool) {
 		return caseT{}, false
 	}
 	open := step{Op: "open", Dir: -1, Path: p, Oflags: of, Fdflags: ff, Rights: r, Lookup: lk}
-	return caseT{Mount: mountKinds[n], Engine: "interpreter", Steps: append([]step{open}, battery()...)}, true
+	return caseT{Mount: mountKinds[n], Engine: "interpreter", Config: crossRecipes[(i/512)%len(crossRecipes)], Steps: append([]step{open}, battery()...)}, true
 }
 
 const crossTotal = 16 * 32 * 5 * 2 * 12 * 3
@@ -945,13 +1120,17 @@ func TestOpenCrossProduct(t *testing.T) {
 		if !ok {
 			break
 		}
-		w := worlds[c.Mount]
+		wk := c.Mount + c.Config.key()
+		w := worlds[wk]
 		if w == nil {
 			var err error
-			if w, err = newWorld(c.Mount, c.Engine); err != nil {
+			if w, err = newWorld(c.Mount, c.Engine, c.Config); err != nil {
 				t.Fatalf("harness: %v", err)
 			}
-			worlds[c.Mount] = w
+			worlds[wk] = w
+		}
+		if !c.Config.isDefault() {
+			lbl["cross-nondefault-config"]++
 		}
 		res := runCase(w, c.Steps, false)
 		n++
@@ -1146,6 +1325,7 @@ func genStep(t *rapid.T, mount string, excludeKnown bool) step {
 func seqKey(c caseT) uint64 {
 	var sb strings.Builder
 	sb.WriteString(c.Mount)
+	sb.WriteString(c.Config.key())
 	for _, s := range c.Steps {
 		fmt.Fprintf(&sb, "|%+v", s)
 	}
@@ -1154,12 +1334,40 @@ func seqKey(c caseT) uint64 {
 
 var seqWorlds = map[string]*world{}
 
-func worldFor(mount, engine string) (*world, error) {
-	k := mount + "/" + engine
+var mountOpKinds = []string{"dir-same", "dir-same", "dir-same", "dir-other", "rodir-other", "map-other", "nil"}
+var mountGuests = []string{"/ro", "/ro", "ro", "/ro/", "./ro", "/x", "y/", "/rw", "/"}
+
+func genRecipe(t *rapid.T) recipe {
+	var r recipe
+	if rapid.IntRange(0, 9).Draw(t, "cfg-default") < 4 {
+		return r
+	}
+	r.Spelling = rapid.SampledFrom([]string{"", "/ro", "ro", "/ro/", "./ro"}).Draw(t, "cfg-spelling")
+	r.RWFirst = rapid.Bool().Draw(t, "cfg-rwfirst")
+	for i, n := 0, rapid.IntRange(0, 2).Draw(t, "cfg-nbefore"); i < n; i++ {
+		// (no nil file system here: overriding a mount with nil leaves a preopen without a
+		// file system in the instance under test, which is outside this property)
+		r.Before = append(r.Before, mountOp{Kind: rapid.SampledFrom(mountOpKinds[:len(mountOpKinds)-1]).Draw(t, "cfg-kind"), Guest: rapid.SampledFrom(mountGuests).Draw(t, "cfg-guest")})
+	}
+	for i, n := 0, rapid.IntRange(0, 3).Draw(t, "cfg-nafter"); i < n; i++ {
+		r.After = append(r.After, mountOp{Kind: rapid.SampledFrom(mountOpKinds).Draw(t, "cfg-kind"), Guest: rapid.SampledFrom(mountGuests).Draw(t, "cfg-guest"),
+			Chain: rapid.Bool().Draw(t, "cfg-chain"), Use: rapid.IntRange(0, 3).Draw(t, "cfg-use") == 0, ViaModule: rapid.IntRange(0, 3).Draw(t, "cfg-via") == 0})
+	}
+	return r
+}
+
+func worldFor(mount, engine string, cfg recipe) (*world, error) {
+	k := mount + "/" + engine + cfg.key()
 	if w := seqWorlds[k]; w != nil {
 		return w, nil
 	}
-	w, err := newWorld(mount, engine)
+	if len(seqWorlds) >= 48 { // bound the number of live runtimes and trees
+		for k, w := range seqWorlds {
+			w.close()
+			delete(seqWorlds, k)
+		}
+	}
+	w, err := newWorld(mount, engine, cfg)
 	if err != nil {
 		return nil, err
 	}
@@ -1180,11 +1388,12 @@ func TestSequences(t *testing.T) {
 	excludeKnown := evid.KnownOpen(findingCreatTrunc)
 	evid.Check(t, "sequences", evid.Scale(24000, 3200000), func(t *rapid.T) {
 		c := caseT{Mount: rapid.SampledFrom(mountKinds).Draw(t, "mount"), Engine: rapid.SampledFrom(wz.Engines).Draw(t, "engine")}
+		c.Config = genRecipe(t)
 		n := rapid.IntRange(1, 15).Draw(t, "nsteps")
 		for i := 0; i < n; i++ {
 			c.Steps = append(c.Steps, genStep(t, c.Mount, excludeKnown))
 		}
-		w, err := worldFor(c.Mount, c.Engine)
+		w, err := worldFor(c.Mount, c.Engine, c.Config)
 		if err != nil {
 			t.Fatalf("harness: %v", err)
 		}
@@ -1197,6 +1406,21 @@ func TestSequences(t *testing.T) {
 			evid.Fail(t, c.withObserved(res), "%s", res.msg)
 		}
 		lbls := []string{"seq-" + c.Mount, "seq-" + c.Engine}
+		if !c.Config.isDefault() {
+			lbls = append(lbls, "seq-nondefault-config")
+			for _, op := range c.Config.After {
+				if cleanGuest(op.Guest) == "ro" {
+					lbls = append(lbls, "seq-config-remounts-ro-path-in-derived-config")
+					break
+				}
+			}
+			for _, op := range c.Config.Before {
+				if cleanGuest(op.Guest) == "ro" && op.Kind != "nil" {
+					lbls = append(lbls, "seq-config-ro-mount-overrides-earlier-mount")
+					break
+				}
+			}
+		}
 		for k := range w.labels {
 			lbls = append(lbls, "seq-with-"+k)
 		}
@@ -1235,7 +1459,7 @@ func TestKnownInput(t *testing.T) {
 		{Mount: "rodir", Engine: "compiler", Steps: []step{{Op: "open", Dir: -1, Path: "f.txt", Oflags: oTrunc, Rights: rightRead, Lookup: 1}}},
 	}
 	for _, c := range inputs {
-		w, err := newWorld(c.Mount, c.Engine)
+		w, err := newWorld(c.Mount, c.Engine, c.Config)
 		if err != nil {
 			t.Fatalf("harness: %v", err)
 		}
@@ -1262,7 +1486,7 @@ func TestReplay(t *testing.T) {
 	if c.Engine == "" {
 		c.Engine = "interpreter"
 	}
-	w, err := newWorld(c.Mount, c.Engine)
+	w, err := newWorld(c.Mount, c.Engine, c.Config)
 	if err != nil {
 		t.Fatalf("harness: %v", err)
 	}
